@@ -29,6 +29,7 @@ def run(prog, run):
     r4(prog, run)
     r6(prog, run)
     r5(prog, run)
+    r7(prog, run)
 
 
 def r6(prog, run):
@@ -671,3 +672,70 @@ def r5(prog, run):
                       'requests of the lost session are neither cancelled nor answerable (%s)' % hits[0]['what'][:120])
     else:
         run.ok(rid, 'src/client/QXmppOutgoingClient.cpp', 'm_streamResumed is reset for every new stream (C10.R1)')
+
+
+# --------------------------------------------------------------------------- R7: what onSessionOpened consults is the stream manager's "resumed" state
+def session_begin_wiring(prog):
+    """(problem text or None, site) - the member of the session-begin record that OutgoingIqManager::onSessionOpened tests is initialised, where the record is built, from the
+    accessor that returns the stream manager's "stream resumed" member (records are built positionally: the element at the member's index counts)"""
+    IQM_ = 'QXmpp::Private::OutgoingIqManager'
+    ops = prog.fn(IQM_ + '::onSessionOpened')
+    tested = set()
+    for b in ops.blocks.values():
+        t = b.get('term')
+        if t and t.get('cond') is not None:
+            for j in ops.walk(t['cond']):
+                m = ops.nodes[j]
+                if m['k'] == 'mem' and 'SessionBegin::' in (m.get('f') or ''):
+                    tested.add(m['f'])
+    if len(tested) != 1:
+        raise AnalysisBroken('C07.R7: the member of SessionBegin that onSessionOpened tests was not identified (%s)' % sorted(tested))
+    fld = tested.pop()
+    rec = prog.record(fld.rsplit('::', 1)[0])
+    idx = [k for k, x in enumerate(rec['fields']) if (x.get('qname') or rec['qname'] + '::' + x['name']) == fld][0]
+    # the accessor of the "resumed" state: the member function of the stream manager that returns the member C07.R5 / C10.R1 call m_streamResumed
+    def set_true_in(ptype):
+        out = set()
+        for g in prog.fns.values():
+            if (g.record or '').endswith('C2sStreamManager') and g.entry is not None and any(ptype in (p_.get('t') or '') for p_ in g.params):
+                for _, a in g.all_nodes('assign'):
+                    l = g.nodes[g.skip(a['l'])]
+                    if l['k'] == 'mem' and g.const_value(a['r']) == ('bool', True):
+                        out.add(l['f'])
+        return out
+    resumed_members = set_true_in('SmResumed') - set_true_in('SmEnabled')        # by the type of the nonza that sets them, not by name
+    if len(resumed_members) != 1:
+        raise AnalysisBroken('C07.R7: the stream manager\'s "resumed" member was not identified (%s)' % sorted(resumed_members))
+    resumed_member = resumed_members.pop()
+    acc = [g for g in prog.fns.values() if (g.record or '').endswith('C2sStreamManager') and g.entry is not None and not g.params and
+           any('e' in r and g.nodes[g.skip(r['e'])].get('k') == 'mem' and g.nodes[g.skip(r['e'])].get('f') == resumed_member for _, r in g.returns())]
+    if len(acc) != 1:
+        raise AnalysisBroken('C07.R7: the accessor of the stream manager\'s resumed flag was not identified')
+    sites = []
+    for f in prog.fns.values():
+        if f.entry is None or '/src/client/' not in f.file:
+            continue
+        for i, n in enumerate(f.nodes):
+            if n['k'] == 'initlist' and (n.get('t') or '').endswith('SessionBegin') and len(n.get('elems', [])) > idx:
+                sites.append((f, i, n['elems'][idx]))
+            if n['k'] == 'assign' and f.nodes[f.skip(n['l'])].get('f') == fld:
+                sites.append((f, i, n['r']))
+    if not sites:
+        raise AnalysisBroken('C07.R7: no place builds a SessionBegin')
+    for f, i, e in sites:
+        ok = any(f.nodes[j]['k'] == 'call' and acc[0].id in [g.id for g in prog.callee_fns(f, f.nodes[j])] for j in f.walk(e))
+        if not ok:
+            return ('%s builds the session-begin record with %s = %s, which is not the stream manager\'s "resumed" state (%s()): the outgoing-request table then keeps or cancels the '
+                    'outstanding requests of the previous session on the wrong signal' % (f.display()[:50], fld.split('::')[-1], f.fmt(e, inline=False)[:50], acc[0].name)), f.loc(i)
+    return None, sites[0][0].loc(sites[0][1])
+
+
+def r7(prog, run):
+    rid = run.rule('C07.R7', 'the member of the session-begin record that decides whether outstanding requests survive (tested by onSessionOpened) is fed, where the record is built, '
+                             'from the stream manager\'s "stream resumed" accessor - by position in the aggregate, so a reordered declaration is seen', floor=1)
+    run.instance(rid)
+    problem, site = session_begin_wiring(prog)
+    if problem:
+        run.violation(rid, 'SessionBegin#resumed-wiring', site, problem)
+    else:
+        run.ok(rid, site, 'onSessionOpened tests the member that openSession() fills from the resumed accessor')
